@@ -727,6 +727,15 @@ func registerIntrinsics(e *Engine) {
 		}
 		return p.eqValue(StrV{p.sliceTerms(args[0].(SliceV))}, StrV{p.sliceTerms(args[1].(SliceV))})
 	}
+	// crypto/subtle (assembly backed): exact semantics, constant time is not the subject
+	I["crypto/subtle.ConstantTimeCompare"] = func(p *Path, fr *frame, fn *ssa.Function, args []Value, pos token.Pos) Value {
+		a, b := args[0].(SliceV), args[1].(SliceV)
+		if a.Len != b.Len {
+			return BVConst(0, 64)
+		}
+		eq := p.eqValue(StrV{p.sliceTerms(a)}, StrV{p.sliceTerms(b)})
+		return p.tb.Ite(eq, BVConst(1, 64), BVConst(0, 64))
+	}
 	I["strings.Contains"] = func(p *Path, fr *frame, fn *ssa.Function, args []Value, pos token.Pos) Value {
 		a, ok1 := args[0].(StrV).Concrete()
 		b, ok2 := args[1].(StrV).Concrete()
